@@ -74,24 +74,25 @@ type Result struct {
 }
 
 type helper struct {
-	key   string
-	decl  *ast.FuncDecl
-	lit   *ast.FuncLit     // a local closure (`warn := func(…){…}`) instead of a declared helper
-	uses  int              // closure: number of call sites
-	inl   int              // closure: call sites inlined
-	sig   *types.Signature // signature (of obj or of the literal)
-	obj   *types.Func
-	file  *ast.File
-	pkg   *packages.Package
+	key    string
+	decl   *ast.FuncDecl
+	lit    *ast.FuncLit     // a local closure (`warn := func(…){…}`) instead of a declared helper
+	uses   int              // closure: number of call sites
+	inl    int              // closure: call sites inlined
+	sig    *types.Signature // signature (of obj or of the literal)
+	obj    *types.Func
+	file   *ast.File
+	pkg    *packages.Package
 	body   *ast.BlockStmt // processed body (calls to other new helpers already inlined)
 	calls  map[*types.Func]bool
 	nested map[*types.Func]int // helper call sites expanded inside the processed body
 }
 
 type planner struct {
-	res     *Result
-	pkg     *packages.Package
-	helpers map[*types.Func]*helper
+	keepAlive map[*ast.File]string
+	res       *Result
+	pkg       *packages.Package
+	helpers   map[*types.Func]*helper
 	// side tables for cloned nodes
 	uses   map[*ast.Ident]types.Object
 	origin map[ast.Node]ast.Node
@@ -142,9 +143,6 @@ func Plan(pkgs []*packages.Package, known map[string]bool, module string) *Resul
 			}
 		}
 		pl.findClosures()
-		if len(pl.helpers) == 0 && len(pl.closures) == 0 {
-			continue
-		}
 		pl.run()
 	}
 	return res
@@ -943,6 +941,29 @@ func (pl *planner) inlineOnce(s ast.Stmt) (pre []ast.Stmt, ns ast.Stmt, ok bool)
 		return nil, nil, false
 	case *ast.LabeledStmt:
 		return nil, nil, false
+	case *ast.ExprStmt:
+		// maps.Copy(dst, src) is, by definition, for k, v := range src { dst[k] = v }
+		if c, isCall := x.X.(*ast.CallExpr); isCall && len(c.Args) == 2 && !c.Ellipsis.IsValid() {
+			if sel, isSel := c.Fun.(*ast.SelectorExpr); isSel {
+				if fn, _ := pl.useOf(sel.Sel).(*types.Func); fn != nil && fn.Pkg() != nil && fn.Pkg().Path() == "maps" && fn.Name() == "Copy" {
+					d, src, k, v := pl.fresh("d"), pl.fresh("s"), pl.fresh("k"), pl.fresh("v")
+					blk := &ast.BlockStmt{List: []ast.Stmt{
+						&ast.AssignStmt{Lhs: []ast.Expr{ast.NewIdent(d), ast.NewIdent(src)}, Tok: token.DEFINE, Rhs: []ast.Expr{c.Args[0], c.Args[1]}},
+						&ast.RangeStmt{Key: ast.NewIdent(k), Value: ast.NewIdent(v), Tok: token.DEFINE, X: ast.NewIdent(src), Body: &ast.BlockStmt{List: []ast.Stmt{
+							&ast.AssignStmt{Lhs: []ast.Expr{&ast.IndexExpr{X: ast.NewIdent(d), Index: ast.NewIdent(k)}}, Tok: token.ASSIGN, Rhs: []ast.Expr{ast.NewIdent(v)}},
+						}}},
+					}}
+					pl.res.Inlined = append(pl.res.Inlined, fmt.Sprintf("maps.Copy into %s", pl.curFunc))
+					if id, isID := sel.X.(*ast.Ident); isID && pl.curFile != nil {
+						if pl.keepAlive == nil {
+							pl.keepAlive = map[*ast.File]string{}
+						}
+						pl.keepAlive[pl.curFile] = id.Name
+					}
+					return nil, blk, true
+				}
+			}
+		}
 	}
 	slots, _ := exprSlots(s)
 	if len(slots) == 0 {
@@ -1571,6 +1592,14 @@ func (pl *planner) emit(f *ast.File) {
 		addImport(f, path, n, pl.pkg)
 	}
 	var buf bytes.Buffer
+	if n := pl.keepAlive[f]; n != "" {
+		// the import may have lost its last use
+		defer func() {
+			if b, ok := pl.res.Overlay[name]; ok {
+				pl.res.Overlay[name] = append(b, []byte("\nvar _ = "+n+".Copy[map[string]struct{}, map[string]struct{}]\n")...)
+			}
+		}()
+	}
 	if err := format.Node(&buf, fset, f); err != nil {
 		pl.res.Skipped = append(pl.res.Skipped, name+": cannot print normalised file: "+err.Error())
 		return
